@@ -8,7 +8,8 @@ from ..refs import dip_ref as D
 from ..refs import units_ref as R
 
 ID = "C13"
-RULE = ("DIP texts made of group lines and typed definitions arranged in generated trees (per-parent child indentation "
+RULE = ("[also: the program cut at a top-level line into A and B - one parser object fed A, parsed, fed B, parsed again "
+        "(first result = A before and after, second = B, and two parsers on one shared empty Environment] ""DIP texts made of group lines and typed definitions arranged in generated trees (per-parent child indentation "
         "width 1-4, so widths vary between subtrees; a separate low-weight class with arbitrary ragged indents), names "
         "over [A-Za-z0-9_-] with 1-3 dotted segments, interleaved blank and comment lines, trailing comments. Values: "
         "bool, (u)int16/32/64 at and inside the width limits, floats in every documented notation, bare / single- / "
@@ -82,6 +83,54 @@ def compare(v, text, exp, tup, typ):
     return None
 
 
+def _rounds(case, v, lines, exp):
+    from scinumtools.dip import DIP, Environment, Format
+    cuts = [i for i, ln in enumerate(lines) if i > 0 and ln["k"] in ("group", "def") and ln["indent"] == 0]
+    if not cuts or lines[0].get("indent", 0) != 0:
+        return None
+    i = cuts[len(cuts) // 2]
+    a, b = lines[:i], lines[i:]
+    ta, tb = D.render(a), D.render(b)
+    ea, eb = D.expected(a), D.expected(b)
+    try:
+        with DIP(name=f"c13_{next(_uid)}") as p:
+            p.add_string(ta)
+            r1 = p.parse()
+            first = (r1.data(Format.TUPLE), r1.data(Format.TYPE))
+            p.add_string(tb)
+            r2 = p.parse()
+            second = (r2.data(Format.TUPLE), r2.data(Format.TYPE))
+            again = (r1.data(Format.TUPLE), r1.data(Format.TYPE))
+    except Exception as e:
+        return v.fail("parse-raised", f"one parser, add_string(A); parse(); add_string(B); parse() raised {e!r}\nA:\n{ta}\nB:\n{tb}")
+    for what, (tup, typ), want, txt in (("first parse", first, ea, ta), ("second parse (B only: parse() consumes the lines it was given)", second, eb, tb),
+                                        ("first result read again after the second parse", again, ea, ta)):
+        if want and compare(v, f"[{what} of one parser object]\n" + txt, want, tup, typ) is not None:
+            return True
+        if not want and tup:
+            return v.fail("paths", f"[{what}] expected no parameters, got {list(tup)}")
+    try:
+        base = Environment()
+        res = []
+        for t in (ta, tb):
+            with DIP(base, name=f"c13_{next(_uid)}") as p:
+                p.add_string(t)
+                e = p.parse()
+            res.append((e.data(Format.TUPLE), e.data(Format.TYPE)))
+        left = base.data(Format.TUPLE)
+    except Exception as e:
+        return v.fail("parse-raised", f"two parsers on one empty base Environment raised {e!r}\nA:\n{ta}\nB:\n{tb}")
+    if left:
+        return v.fail("paths", f"the empty base Environment holds {list(left)} after two parsers used it")
+    for (tup, typ), want, txt in ((res[0], ea, ta), (res[1], eb, tb)):
+        if want and compare(v, "[parser on a shared empty base Environment]\n" + txt, want, tup, typ) is not None:
+            return True
+        if not want and tup:
+            return v.fail("paths", f"[shared empty base] expected no parameters, got {list(tup)}")
+    v.label("two_rounds")
+    return None
+
+
 def check(case):
     v = Verdict()
     try:
@@ -111,6 +160,9 @@ def _check(case, v):
     except Exception as e:
         return v.fail("parse-raised", f"parse raised {e!r} after removing blank/comment lines and scaling indents:\n{text2}")
     if compare(v, text2, exp, tup2, typ2) is not None or v.violations:
+        return
+    # histories: the same parser object fed in two rounds, and one empty base environment shared by two parsers
+    if _rounds(case, v, lines, exp) is not None or v.violations:
         return
     # classification
     nodes = [ln for ln in lines if ln["k"] in ("group", "def")]
